@@ -60,7 +60,7 @@ META = dict(
     tie_theorems=[],
     rule='case = (crystal, Nthermo): crystals are the named zoo (FCC, BCC, HCP, SC, diamond, B2, 2-D square / triangular / '
          'honeycomb, rumpled and rect2d two-site cells with a site vector basis, triclinic, oblique, monoclinic, '
-         'rhombohedral, orthorhombic), rigidly rotated copies of them (lattice -> Q.lattice, tilts 1e-3 .. 1 deg and generic '
+         'rhombohedral, orthorhombic), rigidly rotated copies of them (lattice -> Q.lattice, tilts 1e-4 (1e-5 thorough) .. 1 deg and generic '
          'angles about several axes: float oracles + rotation covariance of the span of the vector stars), plus random '
          'members of lattice families with random parameters; Nthermo 1..2 quick, '
          '1..3 thorough; random class rates per case. Every case runs the direct oracles and the projection comparison; '
@@ -390,7 +390,7 @@ def _plan(ctx, for_search=False):
     # rigidly rotated copies: tiny tilts (the construction of the perpendicular vectors compares against fixed Cartesian
     # reference directions with float thresholds) and generic angles, about several axes; float oracles only
     rot_bases = ['ortho', 'fcc', 'hcp', 'rumpled', 'sc', 'rect2d-2site', 'tri2d', 'mono'] if quick else list(I.QUICK)
-    angles = [1e-3, 1e-2, 0.1, 1.0] if quick else [1e-3, 3e-3, 1e-2, 3e-2, 0.1, 0.3, 1.0]
+    angles = [1e-4, 1e-3, 1e-2, 0.1, 1.0] if quick else [1e-5, 1e-4, 3e-4, 1e-3, 3e-3, 1e-2, 3e-2, 0.1, 0.3, 1.0]
     axes = [(1, 0, 0), (0, 0, 1), (1, 2, 3), (0, 1, 0), (1, 1, 0)]
     for b, name in enumerate(rot_bases):
         for a, deg in enumerate(angles + [rng.uniform(2., 88.)] + ([] if quick else [rng.uniform(2., 88.), rng.uniform(1e-3, 0.2)])):
